@@ -293,13 +293,13 @@ Theorem C06_vol_is_compatible_level : forall ml q sr t,
 Proof. exact vis_compatible_level. Qed.
 Print Assumptions C06_vol_is_compatible_level.
 
-Theorem C06_vol_make_compatible_refines : forall ml q sr t,
-  rmap (fun p => Model_vol.erase (fst p)) (vmake_compatible_w ml q sr t) = make_compatible ml q sr (Model_vol.erase t).
+Theorem C06_vol_make_compatible_refines : forall rp ml q sr t,
+  rmap (fun p => Model_vol.erase (fst p)) (vmake_compatible_w rp ml q sr t) = make_compatible ml q sr (Model_vol.erase t).
 Proof. exact vmake_compatible_refines. Qed.
 Print Assumptions C06_vol_make_compatible_refines.
 
-Theorem C06_vol_make_compatible_preserves_post : forall ml q sr t t' w, tree_ok1b (Model_vol.erase t) = true ->
-  vmake_compatible_w ml q sr t = Ok (t', w) ->
+Theorem C06_vol_make_compatible_preserves_post : forall rp ml q sr t t' w, tree_ok1b (Model_vol.erase t) = true ->
+  vmake_compatible_w rp ml q sr t = Ok (t', w) ->
   same_play (pieces (Model_vol.erase t')) (pieces (Model_vol.erase t)) /\
   (duration (Model_vol.erase t') == duration (Model_vol.erase t))%Q /\
   ((0 < q)%Z -> (0 < sr)%Q -> leaves_ok ml q sr (Model_vol.erase t') = true).
@@ -307,26 +307,51 @@ Proof. exact vmake_compatible_preserves_post. Qed.
 Print Assumptions C06_vol_make_compatible_preserves_post.
 
 (* make_compatible never creates a volatile count *)
-Theorem C06_vol_make_compatible_count_le : forall ml q sr t t' w, vmake_compatible_w ml q sr t = Ok (t', w) ->
+Theorem C06_vol_make_compatible_count_le : forall rp ml q sr t t' w, vmake_compatible_w rp ml q sr t = Ok (t', w) ->
   (vol_count t' <= vol_count t)%nat.
 Proof. exact vmake_compatible_count_le. Qed.
 Print Assumptions C06_vol_make_compatible_count_le.
 
 (* when it loses no volatile count, the rewritten program follows the volatile parameters exactly *)
-Theorem C06_vol_make_compatible_faithful : forall ml q sr t t' w env, vmake_compatible_w ml q sr t = Ok (t', w) ->
+Theorem C06_vol_make_compatible_faithful : forall rp ml q sr t t' w env, vmake_compatible_w rp ml q sr t = Ok (t', w) ->
   vol_count t' = vol_count t -> tree_ok1b (inst env t) = true ->
   same_play (pieces (inst env t')) (pieces (inst env t)) /\ (duration (inst env t') == duration (inst env t))%Q.
 Proof. exact vmake_compatible_faithful. Qed.
 Print Assumptions C06_vol_make_compatible_faithful.
 
-(* "no VolatileModificationWarning => the program still follows its volatile parameters" does NOT hold: a volatile child
-   that is too short is merged away by the early return of _is_compatible, silently *)
+(* [rp = false]: _make_compatible as it was up to round 3.  "no VolatileModificationWarning => the program still follows
+   its volatile parameters" does NOT hold of it: a volatile child that is too short is merged away by the early return of
+   _is_compatible, silently (finding C06-make-compatible-silent-volatile-freeze, repaired in round 4) *)
 Theorem C06_vol_make_compatible_silent_freeze_refuted : exists t t' env,
-  vmake_compatible_w 16 4 1%Q t = Ok (t', false) /\ any_volatile t = true /\ any_volatile t' = false /\
+  vmake_compatible_w false 16 4 1%Q t = Ok (t', false) /\ any_volatile t = true /\ any_volatile t' = false /\
   consistent (fun _ => 2) t = true /\ tree_ok1b (inst env t) = true /\
   ~ (duration (inst env t') == duration (inst env t))%Q.
 Proof. exact vmake_compatible_silent_freeze_refuted. Qed.
 Print Assumptions C06_vol_make_compatible_silent_freeze_refuted.
+
+(* [rp = true]: the repaired _make_compatible (warns before it concatenates a sub-program that holds a volatile count).
+   The repair changes nothing but the warning flag, and never takes a warning away ... *)
+Theorem C06_vol_make_compatible_repair_only_warns : forall ml q sr t,
+  match vmake_compatible_w true ml q sr t, vmake_compatible_w false ml q sr t with
+  | Ok (t1, w1), Ok (t0, w0) => t1 = t0 /\ (w0 = true -> w1 = true)
+  | Err e1, Err e0 => e1 = e0
+  | _, _ => False
+  end.
+Proof. exact vmake_compatible_repair_only_warns. Qed.
+Print Assumptions C06_vol_make_compatible_repair_only_warns.
+
+(* ... no VolatileModificationWarning => no volatile count is lost (the statement that is refuted above for rp = false) ... *)
+Theorem C06_vol_make_compatible_repaired_keeps_counts : forall ml q sr t t',
+  vmake_compatible_w true ml q sr t = Ok (t', false) -> vol_count t' = vol_count t.
+Proof. exact vmake_compatible_repaired_keeps_counts. Qed.
+Print Assumptions C06_vol_make_compatible_repaired_keeps_counts.
+
+(* ... and so the rewritten program follows the volatile parameters: same pulse under EVERY re-evaluation of the counts *)
+Theorem C06_vol_make_compatible_repaired_follows : forall ml q sr t t' env,
+  vmake_compatible_w true ml q sr t = Ok (t', false) -> tree_ok1b (inst env t) = true ->
+  same_play (pieces (inst env t')) (pieces (inst env t)) /\ (duration (inst env t') == duration (inst env t))%Q.
+Proof. exact vmake_compatible_repaired_follows. Qed.
+Print Assumptions C06_vol_make_compatible_repaired_follows.
 
 (* roll_constant_waveforms decides from the waveform only and multiplies the repetition DEFINITION *)
 Theorem C06_vol_roll_refines_all : forall val mq q sr t, multiplicative val ->
